@@ -88,6 +88,20 @@ Theorem C05_peers_for_service_exact : forall me evs svc p,
               exists ad, In ad l /\ svc_prefix me evs svc (ad_pfx ad).
 Proof. exact peers_for_service_exact. Qed.
 
+(* what is REPORTED as advertised (ServiceBGPStatus of the service on this node, [published_status] of
+   PeersForService): no resource iff no peer is offered one of its prefixes, else exactly those peers.  The
+   reconciler that stores it is not modelled beyond [published_status] (a function of PeersForService only, never of
+   the previously stored status); the real ServiceBGPStatusReconciler is driven on a fake API server at every step
+   of the C05 histories and its stored status compared with the sessions (oracle bgp-status-differs-from-sessions) *)
+Theorem C05_reported_status_exact : forall me evs svc,
+  let offered p := exists q l, In q (bs_peers (brun me evs)) /\ pc_name (ps_cfg q) = p /\ ps_sess q = Some l /\
+                               exists ad, In ad l /\ svc_prefix me evs svc (ad_pfx ad) in
+  match published_status (bs_active (brun me evs) svc) with
+  | None => forall p, ~ offered p
+  | Some l => forall p, In p l <-> offered p
+  end.
+Proof. exact reported_status_exact. Qed.
+
 (* "one route": the list repeats an aggregate produced by two Services; it is one route as a set element *)
 Theorem C05_equal_aggregates_repeat_in_the_list :
   exists ad, sess_of (brun 0 (one_route_hist 100 100)) 1 = Some [ad; ad].
